@@ -134,6 +134,29 @@ Section Pub.
   | CloseSub (s : nat)
   | FinishClose (s : nat).
 
+  (* Subscribe(buffer, opts...): the options are applied in the order given, each sets its own field(s) of the
+     subscriber and nothing else; the effective configuration is what the Subscribe label carries. *)
+  Inductive sopt :=
+  | OFilter (f : M -> bool)      (* WithFilter *)
+  | OTimeout (t : Z)             (* WithTimeout, in ticks *)
+  | OOnFiltered                  (* OnFiltered(cb) *)
+  | OOnTimeout.                  (* OnTimeout(cb) *)
+  Record scfg := mkCfg { c_filt : M -> bool; c_tmo : Z; c_onF : bool; c_onT : bool }.
+  Definition default_tmo : Z := 500%Z.   (* defaultTimeout = 10 s, in ticks of 20 ms *)
+  Definition cfg0 : scfg := mkCfg (fun _ => true) default_tmo false false.
+  Definition apply_opt (c : scfg) (o : sopt) : scfg :=
+    match o with
+    | OFilter f => mkCfg f (c_tmo c) (c_onF c) (c_onT c)
+    | OTimeout t => mkCfg (c_filt c) t (c_onF c) (c_onT c)
+    | OOnFiltered => mkCfg (c_filt c) (c_tmo c) true (c_onT c)
+    | OOnTimeout => mkCfg (c_filt c) (c_tmo c) (c_onF c) true
+    end.
+  Definition apply_opts (os : list sopt) : scfg := fold_left apply_opt os cfg0.
+  Definition okind (o : sopt) : nat :=
+    match o with OFilter _ => 0 | OTimeout _ => 1 | OOnFiltered => 2 | OOnTimeout => 3 end.
+  Definition SubscribeOpts (cap : nat) (os : list sopt) : label :=
+    let c := apply_opts os in Subscribe cap (c_filt c) (c_tmo c) (c_onF c) (c_onT c).
+
   (* every subscriber that was in the map when call p began and still is has been visited *)
   Definition range_done (st : state) (p : nat) : bool :=
     forallb (fun s => implb (negb (pgone st p s) && s_inmap (subs st s)) (negb (is_none (pair st p s))))
@@ -290,3 +313,5 @@ End Pub.
 Arguments sub : clear implicits.
 Arguments state : clear implicits.
 Arguments label : clear implicits.
+Arguments sopt : clear implicits.
+Arguments scfg : clear implicits.
